@@ -1,6 +1,6 @@
 (* C17 — property theorems (statements only; proofs are [exact]s of lemmas proved in
    ReadProofs.v / WriteProofs.v).  Print Assumptions under each. *)
-From HV Require Import Lib.Base C17.Model C17.ReadProofs C17.WriteProofs.
+From HV Require Import Lib.Base C17.Model C17.ReadProofs C17.WriteProofs C17.Combined C17.CombinedProofs C17.Timeout C17.TimeoutProofs.
 Open Scope N_scope.
 
 (* The outcome of reading depends only on the concatenated bytes, not on how they are
@@ -99,3 +99,165 @@ Example C17_write_example :
   wgood s /\ (length (stream msgs) <= waccs s)%nat /\
   write_run msgs s = ([0; 3; 7; 8; 9; 0; 1; 1], WDone).
 Proof. cbv zeta. repeat split; try (repeat constructor; cbn; lia). Qed.
+
+(* ------------------------------------------------------------------ *)
+(* Combined machine (Combined.v): one poll_next = send loop, then receive loop; any      *)
+(* arrival schedule of outbound messages, any write / flush / read scripts.              *)
+(* ------------------------------------------------------------------ *)
+
+(* (a) Whatever the send side does (any arrivals, any write and flush scripts, any number
+   of polls), the read-side items yielded are a prefix of what the chunking-free reference
+   makes of the concatenated payload, and all of it, with the same ending, when the run
+   ended on the read side (Ready(None) or a read-side error). *)
+Theorem C17_combined_read_refines : forall arr ws fs s,
+  good_script s ->
+  exists tl,
+    fst (denote (payload s)) = ritems (fst (fst (comb_run arr ws fs (s ++ [REof])))) ++ tl /\
+    (snd (fst (comb_run arr ws fs (s ++ [REof]))) = CClean -> tl = [] /\ snd (denote (payload s)) = Clean) /\
+    (snd (fst (comb_run arr ws fs (s ++ [REof]))) = CFailed -> tl = [] /\ snd (denote (payload s)) = Failed).
+Proof. exact comb_read_refines. Qed.
+Print Assumptions C17_combined_read_refines.
+
+(* (a) Two runs with different chunkings of the same payload and arbitrary, different send
+   activity, both ended on the read side, yield the same read-side items and ending.
+   (Progress of the combined machine, i.e. that enough polls end the run, is not proved.) *)
+Theorem C17_combined_chunking_independent : forall arr1 ws1 fs1 s1 arr2 ws2 fs2 s2,
+  good_script s1 -> good_script s2 -> payload s1 = payload s2 ->
+  snd (fst (comb_run arr1 ws1 fs1 (s1 ++ [REof]))) <> CMore ->
+  snd (fst (comb_run arr2 ws2 fs2 (s2 ++ [REof]))) <> CMore ->
+  ritems (fst (fst (comb_run arr1 ws1 fs1 (s1 ++ [REof])))) =
+    ritems (fst (fst (comb_run arr2 ws2 fs2 (s2 ++ [REof])))) /\
+  snd (fst (comb_run arr1 ws1 fs1 (s1 ++ [REof]))) = snd (fst (comb_run arr2 ws2 fs2 (s2 ++ [REof]))).
+Proof. exact comb_chunking_independent. Qed.
+Print Assumptions C17_combined_chunking_independent.
+
+(* (a) With well-formed frames: exactly the messages, whole, in order, once. *)
+Theorem C17_combined_any_chunking : forall arr ws fs msgs s,
+  Forall ok_msg msgs -> good_script s -> payload s = stream msgs ->
+  exists tl, map Msg msgs = ritems (fst (fst (comb_run arr ws fs (s ++ [REof])))) ++ tl /\
+    (snd (fst (comb_run arr ws fs (s ++ [REof]))) = CClean -> tl = []) /\
+    snd (fst (comb_run arr ws fs (s ++ [REof]))) <> CFailed.
+Proof.
+  intros arr ws fs msgs s Hm Hg Hp.
+  destruct (comb_read_refines arr ws fs s Hg) as (tl & E & C & F).
+  rewrite Hp in *. rewrite <- (app_nil_r (stream msgs)) in *.
+  rewrite denote_stream_app in * by exact Hm. cbn [denote deframe length fst snd] in *.
+  rewrite app_nil_r in E. exists tl. split; [exact E|]. split.
+  - intros X. exact (proj1 (C X)).
+  - intros X. destruct (F X) as [_ B]. discriminate B.
+Qed.
+Print Assumptions C17_combined_any_chunking.
+
+(* (b) For every interleaving with reads, every arrival schedule and every socket script
+   (errors, Pending, zero-byte writes included), the bytes accepted by the socket are a
+   prefix of the frames of the queued messages addressed to the peer, in queue order
+   (length prefix as the code computes it: `len as u16`). *)
+Theorem C17_combined_write_prefix : forall arr ws fs rs,
+  exists rest, streamw (goodq (concat arr)) = c_out (snd (comb_run arr ws fs rs)) ++ rest.
+Proof. exact comb_write_prefix. Qed.
+Print Assumptions C17_combined_write_prefix.
+
+Theorem C17_combined_write_prefix_ok : forall arr ws fs rs,
+  Forall ok_msg (goodq (concat arr)) ->
+  exists rest, stream (goodq (concat arr)) = c_out (snd (comb_run arr ws fs rs)) ++ rest.
+Proof. intros arr ws fs rs Hm. rewrite <- (streamw_ok _ Hm). apply comb_write_prefix. Qed.
+Print Assumptions C17_combined_write_prefix_ok.
+
+(* (c) When the send loop does not fall through (write or flush Pending, or a send-side
+   error), the poll returns Pending / that error and the read state and the unread socket
+   data are untouched: nothing is lost or duplicated. *)
+Theorem C17_combined_send_blocked_keeps_read : forall c r c1,
+  csend (send_fuel c) c = (r, c1) -> r <> SBreak ->
+  cpoll c = (match r with SErr e => PSendErr e | _ => PPending end, c1) /\
+  c_rd c1 = c_rd c /\ c_rs c1 = c_rs c.
+Proof. exact cpoll_send_blocked. Qed.
+Print Assumptions C17_combined_send_blocked_keeps_read.
+
+(* (d) A queued message whose destination is not the peer yields the mismatch error in
+   that poll, is dropped, and none of its bytes reach the socket (by (b) they never do:
+   only [goodq] messages are framed). *)
+Theorem C17_combined_mismatch : forall c m q',
+  c_snd c = None -> c_q c = (false, m) :: q' ->
+  cpoll c = (PSendErr EMismatch, mkC None (c_rd c) q' (c_ws c) (c_fs c) (c_rs c) (c_out c)).
+Proof. exact cpoll_mismatch. Qed.
+Print Assumptions C17_combined_mismatch.
+
+(* The fuel that [cpoll] hands to the two loops is enough: with more fuel nothing changes
+   (so the fuel-exhausted branches of csend / rpoll are never taken), and well-formedness
+   of the read state, which the second statement needs, is kept by every poll. *)
+Theorem C17_combined_fuel_enough :
+  (forall c f, (send_fuel c <= f)%nat -> csend f c = csend (send_fuel c) c) /\
+  (forall st s f, wf_r st -> (S (rsize s) <= f)%nat -> rpoll f st s = rpoll (S (rsize s)) st s) /\
+  (forall c, wf_r (c_rd c) -> wf_r (c_rd (snd (cpoll c)))).
+Proof.
+  split; [exact send_fuel_enough|split; [|exact cpoll_wf]].
+  intros st s f Hw Hf. apply rpoll_fuel; [exact Hw|lia|lia].
+Qed.
+Print Assumptions C17_combined_fuel_enough.
+
+(* Non-vacuity for the combined theorems: sends interleaved with chunked reads, a flush
+   Pending, a write Pending, a mismatched message. *)
+Example C17_combined_example :
+  let arr := [[(true, [7; 8])]; []; [(false, [9]); (true, [5])]; []; []; []; []; []; []; []; []; []] in
+  let ws := [WAcc 1; WPend; WAcc 3; WAcc 9] in
+  let fs := [FPend; FOk; FOk] in
+  let s := [RData [0]; RPending; RData [3; 7]; RData [8; 9; 0]; RData [1; 1]] in
+  let msgs := [[7; 8; 9]; [1]] in
+  Forall ok_msg msgs /\ good_script s /\ payload s = stream msgs /\
+  fst (comb_run arr ws fs (s ++ [REof])) =
+    ([CSnd EMismatch; CRd (Msg [7; 8; 9]); CRd (Msg [1])], CClean) /\
+  c_out (snd (comb_run arr ws fs (s ++ [REof]))) = [0; 2; 7; 8; 0; 1; 5] /\
+  Forall ok_msg (goodq (concat arr)).
+Proof. cbv zeta. repeat split; try (repeat constructor; cbn; lia). Qed.
+Example C17_combined_blocked_example :
+  let c := mkC (Some (SW (WBytes 1 [7; 8]))) (RBody 3 [4]) [] [WPend] [] [RData [5]] [0; 2; 7] in
+  exists c1, csend (send_fuel c) c = (SPend, c1) /\ SPend <> SBreak.
+Proof. cbv zeta. eexists. split; [reflexivity|discriminate]. Qed.
+Example C17_combined_mismatch_example :
+  let c := mkC None (RLen [1]) [(false, [9]); (true, [5])] [] [] [] [] in
+  c_snd c = None /\ c_q c = (false, [9]) :: [(true, [5])].
+Proof. cbv zeta. split; reflexivity. Qed.
+
+(* ------------------------------------------------------------------ *)
+(* TimeoutStream (Timeout.v): logical clock, scripted inner stream.                       *)
+(* ------------------------------------------------------------------ *)
+
+(* Items of the inner stream pass through unchanged and in order; the output is a prefix
+   of the inner stream's items followed by at most one timeout error (then the consumer
+   stops); without a timeout error everything the inner stream yielded was delivered. *)
+Theorem C17_timeout_passthrough : forall d s,
+  exists pre post, inner_items s = pre ++ post /\
+    fst (timeout_run d s) =
+      pre ++ (match snd (timeout_run d s) with TTimedOut => [TTimeout] | _ => [] end) /\
+    (snd (timeout_run d s) <> TTimedOut -> post = []).
+Proof. intros d s. apply trun_prefix. Qed.
+Print Assumptions C17_timeout_passthrough.
+
+(* No timeout error if every stretch without a Ready item (measured from the first poll or
+   from the last Ready, which re-arms the timer) is shorter than the duration. *)
+Theorem C17_timeout_quiet : forall d s,
+  0 < d -> gaps_lt d None s -> snd (timeout_run d s) <> TTimedOut.
+Proof. intros d s Hd Hg. exact (trun_quiet d Hd s 0 None None I Hg). Qed.
+Print Assumptions C17_timeout_quiet.
+
+(* Zero duration = no timer: never a timeout error. *)
+Theorem C17_timeout_zero_duration : forall s, snd (timeout_run 0 s) <> TTimedOut.
+Proof. intros s. apply trun_zero. Qed.
+Print Assumptions C17_timeout_zero_duration.
+
+(* A Pending poll at least d after arming yields the TimedOut error. *)
+Theorem C17_timeout_fires : forall d dt s,
+  0 < d -> d <= dt -> timeout_run d ((0, IPend) :: (dt, IPend) :: s) = ([TTimeout], TTimedOut).
+Proof.
+  intros d dt s Hd Hle. unfold timeout_run. cbn [trun]. rewrite arm_pos by exact Hd.
+  destruct (N.leb_spec (0 + 0 + d) (0 + 0)) as [H|H]; [lia|].
+  destruct (N.leb_spec (0 + 0 + d) (0 + 0 + dt)) as [H'|H']; [reflexivity|lia].
+Qed.
+Print Assumptions C17_timeout_fires.
+
+Example C17_timeout_example :
+  let s := [(0, IPend); (5, IPend); (4, IItem true 1); (9, IPend); (3, IItem false 2); (7, IEnd)] in
+  0 < 10 /\ gaps_lt 10 None s /\
+  timeout_run 10 s = ([TItem true 1; TItem false 2], TEnd) /\
+  timeout_run 10 [(0, IPend); (5, IItem true 1); (9, IPend); (1, IPend)] = ([TItem true 1; TTimeout], TTimedOut).
+Proof. cbv zeta. cbn [gaps_lt]. repeat split; try lia; reflexivity. Qed.
